@@ -194,8 +194,11 @@ def verify_contract(reg, c, timeout_ms=None, seed=0, collect_paths=False, budget
             entry_oid = st.next_oid
             st.writes = []
             E.obligations = []
+            E.truncated = []
             outs = E.run_body(fi, st)
             info['paths'] += len(outs)
+            for why in sorted(set(E.truncated)):
+                results.append(Result(short + '.explore', 'structure', 'every path of the function is explored', 'undecided', detail=why))
             _collect(E, c, fi, outs, results, short, ','.join(desc), env, entry_oid, timeout_ms, seed, pnames)
     except Unsupported as ex:
         info['status'] = 'undecided'
